@@ -37,6 +37,13 @@ def gather_programs(chk, quick, rng, W):
     rng.shuffle(lang)
     for c in lang[: (1500 if quick else 12000)]:
         cases.append({"lang": c})
+    # (b2) every rule / annotation of the schema.proto catalogue (program space of C04)
+    r = chk.tlc("J5RulesMC.tla", "J5Rules_reflect1.cfg", "rules", workers=W, timeout=1500)
+    rules = r.cases
+    r.cases = []
+    rng.shuffle(rules)
+    for c in rules[: (1200 if quick else 20000)]:
+        cases.append({"rules": {"decl": c.get("decl", c), "opts": {"anchor": False, "markForm": bool(rng.getrandbits(1)), "enumNums": bool(rng.getrandbits(1))}}})
     # (c) entities
     r = chk.tlc("J5EntityMC.tla", "J5Entity_quick.cfg", "entities", workers=W, timeout=1800)
     ents = r.cases
